@@ -1,6 +1,8 @@
 package main
 
 import (
+	"fmt"
+	"go/constant"
 	"go/token"
 	"go/types"
 	"sort"
@@ -175,24 +177,82 @@ func init() {
 
 	reg("C16", "C16.9", "T9", "printer and lexer agree on what must be quoted: labels.isReserved and parse.isReserved are the same predicate", func(o *Ob) {
 		e := o.E
+		// the predicate as a set: the runes it accepts one by one (comparisons with a constant, membership in a
+		// constant string) plus "space" for unicode.IsSpace; any other test is kept verbatim so that it shows up as
+		// a difference.  Each test is checked to lead to "true" when it holds.
 		sig := func(name string) string {
 			f := o.Fn(name)
-			var parts []string
-			parts = append(parts, e.LitsOf(f)...)
+			acc := map[string]bool{}
+			addPred := func(v ssa.Value) bool {
+				switch x := v.(type) {
+				case *ssa.Call:
+					switch calleeName(&x.Call) {
+					case "unicode.IsSpace":
+						if e.X(f, x.Call.Args[0]) == "p0" {
+							acc["space"] = true
+							return true
+						}
+					case "strings.ContainsRune":
+						if k, ok := x.Call.Args[0].(*ssa.Const); ok && k.Value != nil && e.X(f, x.Call.Args[1]) == "p0" {
+							for _, r := range constant.StringVal(k.Value) {
+								acc[fmt.Sprintf("%q", r)] = true
+							}
+							return true
+						}
+					}
+				case *ssa.BinOp:
+					if x.Op == token.EQL {
+						for _, pr := range [][2]ssa.Value{{x.X, x.Y}, {x.Y, x.X}} {
+							if k, ok := pr[1].(*ssa.Const); ok && k.Value != nil && e.X(f, pr[0]) == "p0" {
+								if i, exact := constant.Int64Val(k.Value); exact {
+									acc[fmt.Sprintf("%q", rune(i))] = true
+									return true
+								}
+							}
+						}
+					}
+				}
+				return false
+			}
+			for _, b := range f.Blocks {
+				if len(b.Instrs) == 0 {
+					continue
+				}
+				if iff, ok := b.Instrs[len(b.Instrs)-1].(*ssa.If); ok {
+					cond := iff.Cond
+					if !addPred(cond) {
+						acc["other:"+e.CondLit(f, cond).String()] = true
+						continue
+					}
+					// holding ⇒ true
+					r := (&Walk{Fn: f}).FromEdge(b, 0)
+					for _, ret := range r.Returns() {
+						for _, v := range e.ValStrs(f, e.RetVals(r, ret, 0)) {
+							if v != "true" {
+								acc["other:"+e.CondLit(f, cond).String()+" does not lead to true"] = true
+							}
+						}
+					}
+				}
+			}
 			r := (&Walk{Fn: f}).FromEntry()
-			leaves := map[string]bool{}
 			for _, ret := range r.Returns() {
 				for _, v := range e.RetVals(r, ret, 0) {
-					leaves[e.X(f, v)] = true
+					if k, ok := v.(*ssa.Const); ok && k.Value != nil && k.Value.Kind() == constant.Bool {
+						continue
+					}
+					if !addPred(v) {
+						acc["other:"+e.X(f, v)] = true
+					}
 				}
 			}
 			var ls []string
-			for k := range leaves {
+			for k := range acc {
 				ls = append(ls, k)
 			}
 			sort.Strings(ls)
-			o.SiteS(name + ": branches {" + strings.Join(parts, "; ") + "} returns {" + strings.Join(ls, "; ") + "}")
-			return strings.Join(parts, ";") + " => " + strings.Join(ls, ";")
+			o.SiteS(name + ": reserved = {" + strings.Join(ls, " ") + "}")
+			return strings.Join(ls, " ")
 		}
 		a, b := sig("am/pkg/labels.isReserved"), sig("am/matcher/parse.isReserved")
 		o.Check(a == b, "reserved-agree", "Matcher.String quotes a label name iff labels.isReserved says so, the UTF-8 lexer splits on parse.isReserved: they differ ("+a+" vs "+b+"), so a printed matcher can fail to parse back", nil)
@@ -448,7 +508,6 @@ func utf8OperatorRule(o *Ob) {
 	pm := o.Fn("(*am/matcher/parse.parser).parseMatcher")
 	nm := o.One(e.Calls(pm, "am/pkg/labels.NewMatcher"), "construct", "parseMatcher must build the matcher with labels.NewMatcher", pm)
 	o.Site(nm, "parser: kind → match type")
-	kv := "&t:am/matcher/parse.token.kind"
 	// the translation may be a constant table indexed by the kind instead of a switch
 	table := map[string]string{}
 	if lk := lookupOf(nm.Common().Args[0]); lk != nil {
@@ -472,7 +531,10 @@ func utf8OperatorRule(o *Ob) {
 			o.Check(table[m.k] == m.ty, "type|"+m.op, "the "+m.op+" token must become match type "+m.ty+", the table says "+table[m.k], nm)
 			continue
 		}
-		lit := L("("+kv+" == "+m.k+")", true)
+		kindIs := func(k string, pos bool) LitM {
+			return LRe(`\(&\w+:am/matcher/parse\.token\.kind == `+k+`\)`, pos)
+		}
+		lit := kindIs(m.k, true)
 		if !e.litKnown(pm, lit) {
 			o.Fail("type|"+m.op, "parseMatcher no longer distinguishes the "+m.op+" token", nm)
 			continue
@@ -480,7 +542,7 @@ func utf8OperatorRule(o *Ob) {
 		var others []LitM
 		for _, k2 := range []string{eq, ne, re, nre} {
 			if k2 != m.k {
-				others = append(others, L("("+kv+" == "+k2+")", false))
+				others = append(others, kindIs(k2, false))
 			}
 		}
 		r := (&Walk{Fn: pm, Cut: e.CutContradicting(append(others, lit)...)}).FromEntry()
@@ -504,7 +566,7 @@ func utf8OperatorRule(o *Ob) {
 		_ = tv
 		o.Table(uf, "unquote", []Row{
 			{Name: "unquoted token", Assume: A(quoted.Neg()), Ret: [][]string{Vals("~(&t:am/matcher/parse\\.token|recv)\\.value"), Vals("nil")}},
-			{Name: "bad quoting", Assume: A(quoted, uOK.Neg()), Ret: [][]string{Vals(`""`), Vals("~" + uq + "#1", "~fmt\\.Errorf\\(.*")}},
+			{Name: "bad quoting", Assume: A(quoted, uOK.Neg()), Ret: [][]string{Vals(`""`), Vals("~"+uq+"#1", "~fmt\\.Errorf\\(.*")}},
 			{Name: "invalid UTF-8", Assume: A(quoted, uOK, valid.Neg()), Ret: [][]string{Vals(`""`), Vals(anyErr)}},
 			{Name: "valid quoted text", Assume: A(quoted, uOK, valid), Ret: [][]string{Vals("~" + uq + "#0"), Vals("nil")}},
 		})
@@ -512,14 +574,25 @@ func utf8OperatorRule(o *Ob) {
 	// name and value: the unquoted first and third token
 	uq := e.Calls(pm, "(am/matcher/parse.token).unquote")
 	if o.Check(len(uq) == 2, "unquote", "name and value must each be unquoted once", nm) {
-		a1, a2 := nm.Common().Args[1], nm.Common().Args[2]
-		x1, ok1 := a1.(*ssa.Extract)
-		x2, ok2 := a2.(*ssa.Extract)
 		first, second := uq[0], uq[1]
 		if InstrDominates(second, first) {
 			first, second = second, first
 		}
-		o.Check(ok1 && ok2 && x1.Tuple == first.(ssa.Value) && x2.Tuple == second.(ssa.Value) && x1.Index == 0 && x2.Index == 0, "name-value", "the matcher must be built from the unquoted name token and the unquoted value token, in this order", nm)
+		// the text of a token: the unquote result (a helper may join it with "" for its error exit)
+		textOf := func(v ssa.Value, call ssa.CallInstruction) bool {
+			hit := false
+			for _, a := range AltsOf(v) {
+				if x, ok := a.V.(*ssa.Extract); ok && x.Tuple == call.(ssa.Value) && x.Index == 0 {
+					hit = true
+					continue
+				}
+				if k, ok := a.V.(*ssa.Const); !ok || k.Value == nil || constant.StringVal(k.Value) != "" {
+					return false
+				}
+			}
+			return hit
+		}
+		o.Check(textOf(nm.Common().Args[1], first) && textOf(nm.Common().Args[2], second), "name-value", "the matcher must be built from the unquoted name token and the unquoted value token, in this order", nm)
 	}
 	// kept
 	kept := false
